@@ -293,6 +293,15 @@ def gen_malformed(rng, i, p_wellformed=0.1, allow_random=True):
                         recs.append(rec2)
                 return inp, data, recs, "beyond-enclosing"
     r = rng.random()
+    if rng.random() < 0.06:
+        f = F.fault_straddle(data, o, rng)
+        if f:
+            d2 = f[0]
+            if rng.random() < 0.5:
+                fa = F.fault_append(d2, o, rng)
+                if fa:
+                    return inp, fa[0], f[1] + [fa[1]], "straddle"
+            return inp, d2, f[1], "straddle"
     if r < 0.30:
         f = F.fault_size(data, o, rng)
         fam = "size"
